@@ -5,6 +5,7 @@ import (
 	"math"
 	"math/big"
 	"regexp"
+	"sort"
 	"strconv"
 	"strings"
 
@@ -136,8 +137,45 @@ func (k *c12run) symm(what string, in interface{}, ab, ba float64) {
 }
 
 type c12run struct {
-	c *Ctx
-	r *Rand
+	c    *Ctx
+	r    *Rand
+	laws map[c12rat][]c12lawPt
+}
+
+// c12lawPt: one evaluated pair of dates on the implementation: distance in years on the Years() scale,
+// the score, and the two DATE values.
+type c12lawPt struct {
+	d, sim float64
+	a, b   string
+}
+
+// checkLaws: over everything evaluated under one MaxYears, the score must be a function of the distance
+// in years only and must never increase with it (float64 values, tolerance 1e-12); distance 0 scores 1.
+func (k *c12run) checkLaws() {
+	c := k.c
+	for my, pts := range k.laws {
+		sort.SliceStable(pts, func(i, j int) bool { return pts[i].d < pts[j].d })
+		lo := -1 // index of the lowest score among strictly or equally nearer pairs
+		for i, p := range pts {
+			if p.d == 0 && p.sim != 1 {
+				c.Oracle("", "dates zero years apart do not score 1", map[string]interface{}{"a": p.a, "b": p.b, "maxYears": my.String()}, c12fl(p.sim), "1")
+			}
+			if lo >= 0 && p.sim > pts[lo].sim+1e-12 {
+				q := pts[lo]
+				what := "date similarity increases with the distance in years"
+				if q.d == p.d {
+					what = "date similarity differs at equal distance in years"
+				}
+				c.Oracle("", what, map[string]interface{}{"nearer": []string{q.a, q.b}, "nearer_years_apart": q.d,
+					"farther": []string{p.a, p.b}, "farther_years_apart": p.d, "maxYears": my.String()},
+					c12fl(q.sim)+" < "+c12fl(p.sim), "the nearer pair scores at least as high")
+			}
+			if lo < 0 || p.sim < pts[lo].sim {
+				lo = i
+			}
+		}
+		c.Count("date:distance-law-groups")
+	}
 }
 
 // ---------- strings --------------------------------------------------------------------------------
@@ -154,6 +192,9 @@ func c12normEmpty(s string) bool {
 // raw Jaro-Winkler layer on byte strings
 func (k *c12run) jw(a, b string, boost c12rat, prefix int, tie bool) {
 	c := k.c
+	if tie {
+		gedcom.JaroWinkler(a, b, c12otherBoost(boost).f(), prefix) // history probe, one direction only
+	}
 	j := gedcom.JaroWinkler(a, b, 1, 0) // threshold 1: the plain Jaro value is returned
 	jr := gedcom.JaroWinkler(b, a, 1, 0)
 	w := gedcom.JaroWinkler(a, b, boost.f(), prefix)
@@ -173,13 +214,31 @@ func (k *c12run) jw(a, b string, boost c12rat, prefix int, tie bool) {
 	}
 }
 
+// c12otherBoost picks a boost threshold different from t, on the other side of most Jaro values.
+func c12otherBoost(t c12rat) c12rat {
+	if t.n == 0 {
+		return c12rat{1, 1}
+	}
+	return c12rat{0, 1}
+}
+
 func (k *c12run) strsim(a, b string, boost c12rat, prefix int) {
 	c := k.c
+	// history probe: the pair is first scored in ONE direction under another boost threshold (same
+	// prefix size); the scores under the requested options must not remember that call
+	other := c12otherBoost(boost)
+	h1 := gedcom.StringSimilarity(a, b, other.f(), prefix)
 	s := gedcom.StringSimilarity(a, b, boost.f(), prefix)
 	sr := gedcom.StringSimilarity(b, a, boost.f(), prefix)
-	in := map[string]interface{}{"a": a, "b": b, "boost": boost.String(), "prefix": prefix}
-	k.bounds("StringSimilarity", in, s, sr)
+	in := map[string]interface{}{"a": a, "b": b, "boost": boost.String(), "prefix": prefix,
+		"history": fmt.Sprintf("StringSimilarity(a, b, %s, %d) was called first", other, prefix)}
+	k.bounds("StringSimilarity", in, s, sr, h1)
 	k.symm("StringSimilarity", in, s, sr)
+	if h2 := gedcom.StringSimilarity(b, a, other.f(), prefix); h1 != h2 {
+		in2 := map[string]interface{}{"a": a, "b": b, "boost": other.String(), "prefix": prefix,
+			"history": fmt.Sprintf("StringSimilarity(a, b, %s, %d), then both directions under boost %s, were called first", other, prefix, boost)}
+		c.Oracle("", "StringSimilarity depends on the operand order", in2, c12fl(h1)+" vs swapped "+c12fl(h2), "equal")
+	}
 	for _, x := range []string{a, b} {
 		if x == "" {
 			continue
@@ -432,6 +491,9 @@ func (k *c12run) datePair(a, b *gedcom.DateNode, my c12rat) (float64, bool) {
 		}
 	} else {
 		d := math.Abs(a.Years() - b.Years())
+		if len(k.laws[my]) < 400000 {
+			k.laws[my] = append(k.laws[my], c12lawPt{d, s, a.Value(), b.Value()})
+		}
 		if d > my.f() && s != 0 {
 			c.Oracle("", "dates further apart than MaxYears do not score 0", in, c12fl(s), "0")
 		}
@@ -471,7 +533,8 @@ func (k *c12run) dates() {
 			boundary = append(boundary, c12dateStr(29, 2, y))
 		}
 	}
-	boundary = append(boundary, "Abt. 1900", "Bef. 1900", "Aft. 1900", "Bet. 1900 and 1903", "Bet. 1 Jan 1900 and 31 Dec 1902", "(phrase)", "")
+	boundary = append(boundary, "Abt. 1900", "Bef. 1900", "Aft. 1900", "Bet. 1900 and 1903", "Bet. 1 Jan 1900 and 31 Dec 1902", "Bet. 1890 and 1910",
+		"From 1880 to 1920", "Bet. 1 Jan 1800 and 31 Dec 1999", "(phrase)", "")
 	nodes := make([]*gedcom.DateNode, 0, len(boundary)+1)
 	nodes = append(nodes, nil)
 	for _, s := range boundary {
@@ -509,6 +572,42 @@ func (k *c12run) dates() {
 		k.datePair(a, b, c12maxYears[k.r.Intn(len(c12maxYears))])
 		c.Count("date:random-pairs")
 		c.Nontrivial("date:" + c12nodeVal(a) + "|" + c12nodeVal(b))
+	}
+	// wide ranges (half-width beyond MaxYears + 1) against dates near their midpoint: the distance is
+	// between the Years() midpoints, not between the start years
+	n = c.N(6000, 60000)
+	for i := 0; i < n; i++ {
+		my := c12maxYears[k.r.Intn(len(c12maxYears))]
+		m := int(math.Ceil(my.f()))
+		y := 1200 + k.r.Intn(1500)
+		w := m + 1 + k.r.Intn(16)
+		var wide string
+		switch k.r.Intn(4) {
+		case 0:
+			wide = fmt.Sprintf("From %d to %d", y-w, y+w)
+		case 1:
+			wide = fmt.Sprintf("Bet. %s and %s", k.randSimple(y-w, y-w), k.randSimple(y+w, y+w))
+		default:
+			wide = fmt.Sprintf("Bet. %d and %d", y-w, y+w)
+		}
+		near := y + k.r.Range(-m-1, m+1)
+		var o string
+		switch k.r.Intn(3) {
+		case 0:
+			o = strconv.Itoa(near)
+		case 1:
+			o = k.randSimple(near, near)
+		default: // another wide range around a nearby midpoint
+			w2 := m + 1 + k.r.Intn(16)
+			o = fmt.Sprintf("Bet. %d and %d", near-w2, near+w2)
+		}
+		a, b := gedcom.NewDateNode(wide), gedcom.NewDateNode(o)
+		if k.r.Bool() {
+			a, b = b, a
+		}
+		k.datePair(a, b, my)
+		c.Count("date:wide-range-vs-midpoint")
+		c.Nontrivial("date:" + a.Value() + "|" + b.Value())
 	}
 	// distance chains: from one anchor, walk away day by day / month by month / year by year on both
 	// sides; the score must never increase with the distance (measured on the same Years() scale), and
@@ -557,6 +656,7 @@ func (k *c12run) dates() {
 		}
 		c.Count("date:distance-chains")
 	}
+	k.checkLaws()
 	c.Sample(map[string]string{"request": "datesim 3.9.1943.3.9.1943 0.0.1945.0.0.1945 3", "meaning": "3 Sep 1943 vs 1945, MaxYears 3"})
 }
 
@@ -771,11 +871,24 @@ func c12ptrs(xs gedcom.IndividualNodes) []string {
 func (k *c12run) indiPair(e *c12env, docs string, x, y *gedcom.IndividualNode, o c12opts) {
 	c := k.c
 	g := o.Go()
+	// history probe: one direction first under options that differ in the boost threshold only
+	g1 := g
+	g1.JaroBoostThreshold = 1
+	if g.JaroBoostThreshold != 0 {
+		g1.JaroBoostThreshold = 0
+	}
+	h1 := x.Similarity(y, g1)
 	s := x.Similarity(y, g)
 	sr := y.Similarity(x, g)
-	in := map[string]interface{}{"documents": docs, "left": c12ptr(x), "right": c12ptr(y), "options": o.wire()}
-	k.bounds("individual similarity", in, s, sr)
+	in := map[string]interface{}{"documents": docs, "left": c12ptr(x), "right": c12ptr(y), "options": o.wire(),
+		"history": fmt.Sprintf("left.Similarity(right) with JaroBoostThreshold %v was called first", g1.JaroBoostThreshold)}
+	k.bounds("individual similarity", in, s, sr, h1)
 	k.symm("individual similarity", in, s, sr)
+	if h2 := y.Similarity(x, g1); h1 != h2 {
+		in2 := map[string]interface{}{"documents": docs, "left": c12ptr(x), "right": c12ptr(y), "options": o.wire(),
+			"history": fmt.Sprintf("scored with JaroBoostThreshold %v after both directions under the listed options", g1.JaroBoostThreshold)}
+		c.Oracle("", "individual similarity depends on the operand order", in2, c12fl(h1)+" vs swapped "+c12fl(h2), "equal")
+	}
 	if (x == nil || y == nil) && s != 0.5 {
 		c.Oracle("", "a missing individual does not score the neutral 0.5", in, c12fl(s), "0.5")
 	}
@@ -997,7 +1110,7 @@ func init() {
 		c.Compare = c12compare
 		c12inconclusive = func() { c.Dist["inconclusive (float comparison within 1e-9 of its threshold)"]++ }
 		c.Rule = "strings: every pair over {a,b} up to length 6 (thorough 8) through model and implementation, every pair over {a,b,c} up to length 5 (thorough 7) through the oracle, random strings (length < 24) over small alphabets and their typo-mutations, names with case/punctuation/space runs/Unicode/invalid UTF-8; dates: all pairs of a boundary set, random pairs of every DATE form, distance chains; individuals, lists (with duplicates and shared people), families and surrounding similarity on random family graphs vs an edited copy or an independent graph, default and random options (weights k/20 summing to 1, prefix <= 10, MaxYears > 0); distinct = distinct string pairs / date pairs / (graph, query)"
-		k := &c12run{c: c, r: c.R}
+		k := &c12run{c: c, r: c.R, laws: map[c12rat][]c12lawPt{}}
 		k.strings()
 		k.dates()
 		k.graphs()
